@@ -227,6 +227,20 @@ def many_box_mesh():
     return {"ndims": 3, "domain": [6, 6, 6], "levels": [l0, l1]}
 
 
+def many_file_mesh():
+    """131 boxes on level 0, each in its OWN binary file (more files than any batching threshold of 64 or 128, not a
+    multiple of anything); 66 boxes on level 1 in 65 files"""
+    l0 = [[[2 * i, 0, 0], [2 * i + 1, 1, 1]] for i in range(131)]
+    l1 = [[[4 * i, 0, 0], [4 * i + 1, 1, 1]] for i in range(66)]
+    return {"ndims": 3, "domain": [262, 2, 2], "levels": [l0, l1]}
+
+
+def many_file_layouts():
+    """file numbers in descending order on level 0; on level 1 the last file holds two boxes"""
+    return [{"files": [[b] for b in range(131)], "nums": list(reversed(range(131)))},
+            {"files": [[b] for b in range(64)] + [[65, 64]], "nums": list(range(65))}]
+
+
 def scattered_layout(nboxes, nfiles=5):
     """box b lives in file (7 b) mod nfiles; odd files hold their boxes in descending order; file numbers reversed"""
     files = [[b for b in range(nboxes) if (7 * b) % nfiles == f] for f in range(nfiles)]
